@@ -440,9 +440,12 @@ def plan(tier: str) -> typing.List[tuple]:
     t += [(nm, r) for r in rs for nm in ("bit", "pad_s", "skip_s", "boff_s", "fbit", "pad_d", "skip_d", "rem", "boff_d")]
     if tier != "thorough":
         # every-change tier: every function that contains a loop or a shift is verified for ALL its cases (u2b, ufb, aub, fub,
-        # fab, bit, fbit, the aligned families); the purely compositional unaligned wrappers (which only call those by
-        # contract and adjust the cursor) for the cursor positions 0, 3 and 7 -- all eight in the thorough tier
-        t = [x for x in t if x[0] not in ("auu", "aus", "fuu", "fus") or x[1] in (0, 3, 7)]
+        # fab, bit, fbit); the compositional wrappers (which only call those by contract and adjust the cursor) for the
+        # cursor positions 0, 3 and 7 -- all eight in the thorough tier --
+        # and a spread of bit lengths (all 64 in the thorough tier)
+        KQ = {1, 2, 3, 5, 7, 8, 9, 12, 13, 15, 16, 17, 24, 31, 32, 33, 40, 47, 48, 56, 63, 64}
+        t = [x for x in t if x[0] not in ("auu", "aus", "fuu", "fus") or (x[1] in (0, 3, 7) and x[2] in KQ)]
+        t = [x for x in t if x[0] not in ("aau", "aas", "fau", "fas") or x[1] in KQ]
     return t
 
 
